@@ -425,3 +425,44 @@ def _rmdec_cfgs(tier):
 @obligation("C02.rm_majority", function=FD + "reed_muller_decoder.py:ReedMullerDecoder.forward; " + FD + "reed_muller_decoder.py:ReedMullerDecoder._generate_reed_partitions", configs=_rmdec_cfgs, kind="custom", engine="standin")
 def rm_majority(spec, cfg, tier, seed):
     return _bounded_decoder(spec, cfg, tier, seed, "rm", spec.function)
+
+
+# ---------------------------------------------------------------------------------------- Berlekamp-Massey, path-complete for n = 7
+def _bm_sym_cfgs(tier):
+    mus = (3,) if tier == "quick" else (3, 4)
+    out = []
+    for c in codes.catalogue(tier):
+        if c.family == "bch" and c[1] in mus:
+            enc = codes.build(c)
+            k, n = enc.generator_matrix.shape
+            t = capability(enc, c)[0]
+            npat = sum(1 for w in range(t + 1) for _ in itertools.combinations(range(n), w))
+            if (1 << k) * npat <= (600 if tier == "quick" else 20000):
+                out.append(c)
+    return out
+
+
+@obligation(
+    "C02.berlekamp_massey_paths",
+    function=FD + "berlekamp_massey.py:BerlekampMasseyDecoder.forward; " + FD + "berlekamp_massey.py:BerlekampMasseyDecoder.berlekamp_massey_algorithm; " + FD + "berlekamp_massey.py:BerlekampMasseyDecoder._find_error_locations; " + FE + "bch_code.py:BCHCodeEncoder.calculate_syndrome_polynomial",
+    configs=_bm_sym_cfgs,
+    max_paths=30000,
+    timeout_ms=30000,
+    crosscheck=2,
+)
+def berlekamp_massey_paths(ctx, cfg):
+    """symbolic message and error pattern (wt <= t); the decoder converts every received bit with int(round(.item())), so the explorer
+    forks on every bit: all 2^k x #patterns feasible paths are executed on the real code (path-complete = complete for this code)"""
+    enc = codes.build(cfg)
+    dec = _decoder("bm", cfg)
+    k, n = enc.generator_matrix.shape
+    t, d, src = capability(enc, cfg)
+    m, e, r, _ = received_word(ctx, enc, (1,), "", t)
+    out = ctx.call(dec.forward, r, return_errors=True)
+    ctx.ensure("returns", out.ok, note=repr(out.exc) if not out.ok else f"t={t} from {src}")
+    if not out.ok:
+        return
+    decoded, errors = out.value
+    ctx.ensure("corrects_up_to_t", SP.shape_is(decoded, (1, k)) and SP.all_eq(P(decoded), P(m)), note=f"t={t} from {src}")
+    ctx.ensure("reports_error_pattern", SP.shape_is(errors, (1, n)) and SP.all_eq(P(errors), P(e)))
+    ctx.ensure("input_unmodified", out.unmodified)
